@@ -76,6 +76,11 @@ func VerifC01Op() {
 	if op == 4 {
 		vAssume(fresh) // lock targets are fresh addresses, as the Inner Ring constructs them
 	}
+	if op == 5 {
+		// the epoch is turned into bytes for the unlock details: one path per encoding length. Stated bound:
+		// 8-byte epochs (the engine used to explore 4-byte ones only, without saying so)
+		vAssume(amt >= -(1<<62) && amt < 1<<62)
+	}
 
 	p0, p1, pl, pf, pt, psup := balOf(a0), balOf(a1), balOf(lk), balOf(from), balOf(to), supply()
 	vAssert(p0+p1+pl == psup && p0 >= 0 && p1 >= 0 && pl >= 0, "C01/setup-state-consistent")
